@@ -65,3 +65,13 @@ Proof.
   cbn [exec]. unfold fresh_uid. intros [= <- _] W. unfold set_var. cbn [w_vars w_heap w_uid w_dicts].
   apply wown_bind; [exact W|lia|]. intros rr [= <-]. split; [apply owned_empty|cbn; lia].
 Qed.
+
+Theorem newf_keeps_wown w v i w' o : exec w (CNewF v i) = (w', o) -> wown w -> wown w'.
+Proof.
+  cbn [exec]. unfold fresh_uid. intros [= <- _] W. unfold set_var. cbn [w_vars w_heap w_uid w_dicts].
+  apply wown_bind; [exact W|lia|]. intros rr [= <-]. split; [apply owned_empty|cbn; lia].
+Qed.
+
+(* queries leave the world, hence the invariant *)
+Theorem query_keeps_wown w v q w' o : exec w (CQuery v q) = (w', o) -> wown w -> wown w'.
+Proof. intros H W. now rewrite (query_leaves_world _ _ _ _ _ H). Qed.
